@@ -219,9 +219,11 @@ impl Sut {
         rt::wait_until("consumer and sweeper to exit after shutdown", || {
             exited_all(&[Role::Consumer]) && (!wait_sweeper || exited_all(&[Role::Sweeper]))
         })?;
+        // a helper thread of the case may still be on its way out with its clone of the cache
+        if let Err(waited) = rt::wait_until("the other holders of the cache to let go of it", || Arc::strong_count(&cache) == 1) { rt::taint(); return Err(waited); }
         match Arc::try_unwrap(cache) {
             Ok(cache) => drop(cache),
-            Err(_) => return Err(Waited::Inconclusive("cache still shared at the end of a history".into())),
+            Err(_) => { rt::taint(); return Err(Waited::Inconclusive("cache still shared at the end of a history".into())); }
         }
         rt::wait_until("command worker to exit after the cache was dropped", || exited_all(&[Role::Worker]))
     }
@@ -232,6 +234,7 @@ impl Sut {
         if rt::aborted() {
             rt::sched().release_all();
             std::mem::forget(self.cache.clone());
+            rt::taint();
             return Ok(());
         }
         self.finish()
